@@ -12,7 +12,7 @@ RULE = ('per case one CheckCommand + Host (+ Service) built from config text wit
         'families: array command lines with 0-8 argument definitions over every combination of value/key/set_if/skip_key/repeat_key/separator/required/order '
         '(scalars, arrays, dictionaries, missing macros, $$), 17-40 argument definitions with pairwise distinct order, custom variables named "" next to $$, string command lines run through the real /bin/sh, custom-variable recursion chains of depth 0-18 and loops, '
         'shadowing and dotted names over all resolver levels, plugin exit statuses 0-255 and death by signal, plugin outputs with 0-3 "|" and "=" per line over several lines, '
-        'Utility::EscapeShellArg on raw values, one timeout kill; non-trivial = the case resolves at least one macro or maps a plugin result; distinct = distinct script text')
+        'Utility::EscapeShellArg on raw values, nine real-time timeout scenarios (plugin dies from SIGTERM / ignores it / traps it and exits 0-3 inside the grace period / traps it too slowly / leaves a grandchild holding the pipe); non-trivial = the case resolves at least one macro or maps a plugin result; distinct = distinct script text')
 TRUSTED = ['model: coq/Macro/MxModel.v (transcription of macroprocessor.cpp 88-192, 232-339, 22-76, 407-585; utility.cpp EscapeShellArg; '
            'process.cpp PrepareCommand; pluginutility.cpp 16-45, 85-178; pluginchecktask.cpp 65-97)',
            'POSIX sh word splitting / quote removal is modelled only for blanks, characters without special meaning, single quotes and backslash '
@@ -22,7 +22,7 @@ TRUSTED = ['model: coq/Macro/MxModel.v (transcription of macroprocessor.cpp 88-1
 ASSUMPTIONS = ['macro values are NUL-free byte strings (a C string cannot carry NUL); numbers are integers',
                'Function-valued commands/arguments, the resolvedMacros cache of remote execution, and the config-writer text of arrays/dictionaries used inside a string are not modelled',
                'set_if strings are modelled for plain decimal notation (optional sign, digits, optional fraction); exponent notation, inf and nan are neither modelled nor generated',
-               'the timeout kill is exercised (1 s timeout against a sleeping plugin => UNKNOWN) but not modelled']
+               'timeouts: Process::DoEvents is modelled as a step function whose inputs are the facts "soft / hard deadline passed", the read result and the wait status (real time itself is not modelled); the real-time scenarios let the plugin outlive the timeout by >= 25 s']
 
 RECPLUG = core.B + '/harness/recplug'
 
@@ -464,16 +464,33 @@ def case_many_args(rnd):
     return c.done()
 
 
-def case_timeout():
-    c = Case('timeout-kill')
-    c.lines += ['mx_cmd kind=arr', 'mx_cel v=%s' % hx(RECPLUG), 'mx_plug exit=0 sleep=20 timeout=1', 'mx_exec svc=0']
+def case_timeout(spec, out=''):
+    c = Case('timeout-scenarios')
+    c.lines += ['mx_cmd kind=arr', 'mx_cel v=%s' % hx(RECPLUG), 'mx_cel v=%s' % hx(spec.split()[0]),
+                'mx_plug out=%s %s' % (hx(out), spec), 'mx_exec svc=0']
+    c.tags['scenario'] = spec
     return c.done()
+
+
+def timeout_cases():
+    """real-time cases (each costs about 1.1 x timeout seconds; they land in different shards and run in parallel).
+    The plugin (or the grandchild holding the pipe) outlives the timeout by at least 25 s, so the soft deadline
+    always fires; what is observed (state, exit status, marker, no survivor) does not depend on how fast the
+    plugin reacts, so load cannot change the expected line - it can only make a broken implementation look right."""
+    cs = [case_timeout('exit=0 sleep=30 timeout=1'),                        # dies from the SIGTERM
+          case_timeout('exit=0 sleep=30 timeout=1 term=ignore', 'busy'),      # must be SIGKILLed
+          case_timeout('exit=0 sleep=30 timeout=1 term=exit:0:5000'),         # traps SIGTERM, too slow: SIGKILL
+          case_timeout('exit=0 gchild=30 timeout=1', 'started'),              # plugin gone, grandchild holds the pipe
+          case_timeout('exit=2 gchild=30 timeout=1')]
+    for code, tmo in ((0, 4), (1, 4), (2, 6), (3, 6)):                         # traps SIGTERM, exits inside the grace period
+        cs.append(case_timeout('exit=0 sleep=40 timeout=%d term=exit:%d:0' % (tmo, code), 'working'))
+    return cs
 
 
 def generate(seed, tier):
     rnd = random.Random(seed)
     k = {'quick': 1, 'thorough': 8, 'search': 3}.get(tier, 1)
-    cases = [case_exit_map(), case_timeout()]
+    cases = [case_exit_map()] + timeout_cases()
     for _ in range(900 * k):
         cases.append(case_args(rnd, False))
     for _ in range(200 * k):
@@ -497,7 +514,7 @@ def generate(seed, tier):
 
 def nontrivial(case, impl_lines):
     fam = case['tags'].get('family', '')
-    if fam in ('exit-map', 'pure-functions', 'exit-status-exec', 'timeout-kill'):
+    if fam in ('exit-map', 'pure-functions', 'exit-status-exec', 'timeout-scenarios'):
         return True
     return any('24' in l for l in case['lines'] if l.startswith(('mx_cel', 'mx_arg')))   # a '$' somewhere
 
@@ -505,7 +522,7 @@ def nontrivial(case, impl_lines):
 def classify(case, detail, impl_lines):
     if 'crash' in detail or 'missing-observation' in detail:
         return 'crash'
-    for key in ('exit-map', 'failure-not-unknown', 'argv-through-sh', 'escape', 'perfdata', 'output', 'argv', 'shell-string', 'failure'):
+    for key in ('timeout-not-unknown', 'timeout-marker', 'grandchild-survived', 'exit-map', 'failure-not-unknown', 'argv-through-sh', 'escape', 'perfdata', 'output', 'argv', 'shell-string', 'failure'):
         if key in detail:
             return key
     return 'other'
@@ -529,6 +546,8 @@ def extra_stats(cases, impl):
                 st['resolve_failure'] += 1
             elif l.startswith('exec'):
                 st['executions'] += 1
+                if 'tmo=1' in l:
+                    st['timeouts_fired'] += 1
                 if 'argv=none' in l:
                     st['executions_not_started'] += 1
                 for t in l.split():
